@@ -127,6 +127,7 @@ Silent ==
     /\ \/ cur.s = "x" /\ cur' = St("idle") /\ UNCHANGED skip          \* the statement returned without completing
        \/ cur.s = "qrows" /\ cur' = St("q") /\ UNCHANGED skip
        \/ cur.s = "xcopy" /\ cur' = St("idle") /\ UNCHANGED skip
+       \/ cur.s = "xdone" /\ cur' = St("idle") /\ UNCHANGED skip
        \/ cur.s = "unk1" /\ cur' = St("idle") /\ skip' = TRUE         \* E1: error, then discarding
        \/ cur.s = "mal1" /\ cur' = St("idle") /\ skip' = TRUE
        \/ cur.s = "mal2" /\ cur' = St("idle") /\ UNCHANGED skip
@@ -189,12 +190,14 @@ FRecv(e) ==
               \/ e.t = "E" /\ Fail
          [] cur.s = "x" ->
               \/ e.t = "D" /\ Go(cur)
-              \/ e.t \in {"C", "I"} /\ Go(St("idle"))
+              \/ e.t \in {"C", "I"} /\ Go(St("xdone"))
               \/ e.t = "G" /\ Go(St("xcopy"))
               \/ e.t = "E" /\ Fail
          [] cur.s = "xcopy" ->
-              \/ e.t \in {"C", "I"} /\ Go(St("idle"))
+              \/ e.t \in {"C", "I"} /\ Go(St("xdone"))
               \/ e.t = "E" /\ Fail
+         \* the statement function completed its result and may still return an error
+         [] cur.s = "xdone" -> e.t = "E" /\ Fail
          [] cur.s = "big" ->
               /\ e.t = "E" /\ e.code = "54000" /\ ~e.fatal
               /\ IF cur.ty \in ExtTypes THEN Fail
@@ -224,7 +227,7 @@ FClose == MayClose /\ cur' = St("dead") /\ UNCHANGED <<inq, skip, stmts, portals
 FTypeOK ==
     /\ skip \in BOOLEAN /\ eofseen \in BOOLEAN /\ faulted \in BOOLEAN
     /\ cur.s \in {"startup", "sslans", "auth", "authwait", "auth2", "params", "idle", "blank", "q", "qrows",
-                  "qcopy", "zdue", "one", "mustfail", "descS", "descS2", "descP", "x", "xcopy", "big", "unk",
+                  "qcopy", "zdue", "one", "mustfail", "descS", "descS2", "descP", "x", "xcopy", "xdone", "big", "unk",
                   "unk1", "mal", "mal1", "mal2", "closing", "closingE", "closingZ", "opaque", "dead"}
 
 \* discarding only ever starts from the extended protocol or an unclassifiable message, inside a session
